@@ -268,7 +268,12 @@ def run_save(case, plan=None, log=None, hooks=None, fs=None, only_warmup=False):
             raise core_Unsimulated('the code under test reached the real file system through %s at simulated path %s'
                                    % (os.path.basename(lastfile), fn))
     finally:
-        sim.dispose()
+        try:
+            h = sim.hooks.get('after-save')
+            if h is not None and not r.crashed:
+                h()                 # (another thread of the process finishes what it began during this save)
+        finally:
+            sim.dispose()
     return r
 
 
